@@ -92,8 +92,10 @@ Slot *Arena::alloc(size_t len, int placement, const char *label, uint64_t fill_s
                 pages = (len + PG - 1) / PG;
         if (pages == 0)
                 pages = 1;
-        if (pos - run_start + (pages + 3) * PG > RUN_BUDGET)
+        if (pos - run_start + (pages + 3) * PG > RUN_BUDGET) {
+                budget_hits++;
                 return nullptr;
+        }
         if (const char *pl = getenv("SIM_PAD_LABEL"))
                 if (!strcmp(pl, label))
                         pos += (size_t) atol(getenv("SIM_PAD_PAGES")) * PG;
